@@ -128,8 +128,12 @@ class _CheckingJacobian(DictionaryJacobian):
         # use our own copy of each subjac's metadata so that the sparsity audit results
         # ('uncovered_nz') of this check neither accumulate over multiple steps / calls nor leak
         # into the system's own subjacs_info.
+        # The values get their own storage too: the approximated values of one step must not
+        # overwrite those of a previous step (check_partials with a list of steps returns one
+        # J_fd per step) or the values of the system's own sub-jacobians.
         stale = ('uncovered_nz', 'uncovered_threshold', 'directional')
-        self._subjacs_info = {key: {n: v for n, v in meta.items() if n not in stale}
+        self._subjacs_info = {key: {n: (v.copy() if n == 'val' and hasattr(v, 'copy') else v)
+                                    for n, v in meta.items() if n not in stale}
                               for key, meta in self._subjacs_info.items()}
 
         self._setup_index_maps(system)
